@@ -199,6 +199,38 @@ func pubDecorator(id int, r *rec) message.PublisherDecorator {
 	return func(p message.Publisher) (message.Publisher, error) { return &decPub{p, id, r}, nil }
 }
 
+// a decorator that returns an error the first time it is applied (a transient failure) and works afterwards
+func failOncePub(d message.PublisherDecorator) message.PublisherDecorator {
+	failed := false
+	return func(p message.Publisher) (message.Publisher, error) {
+		if !failed {
+			failed = true
+			return nil, errors.New("publisher decorator not ready yet")
+		}
+		return d(p)
+	}
+}
+
+func failOnceSub(d message.SubscriberDecorator) message.SubscriberDecorator {
+	failed := false
+	return func(s message.Subscriber) (message.Subscriber, error) {
+		if !failed {
+			failed = true
+			return nil, errors.New("subscriber decorator not ready yet")
+		}
+		return d(s)
+	}
+}
+
+// appValues: what logging / audit / multi-tenancy code of the application might put into a message context, under
+// plain string keys whose texts happen to be the router's
+func appValues(ctx context.Context, who string) context.Context {
+	for _, k := range []string{"handler_name", "publisher_name", "subscriber_name", "subscribe_topic", "publish_topic"} {
+		ctx = context.WithValue(ctx, k, "app-"+who+"-"+k) //nolint:staticcheck // plain string keys are the point
+	}
+	return ctx
+}
+
 // recording subscriber decorator number id (watermill's own transform decorator)
 func subDecorator(id int, r *rec) message.SubscriberDecorator {
 	return message.MessageTransformSubscriberDecorator(func(m *message.Message) {
@@ -387,12 +419,20 @@ func parse(req string) (*request, bool) {
 			q.ops = append(q.ops, op{"RUN", 0})
 			continue
 		}
+		if t == "K" {
+			q.ops = append(q.ops, op{"K", 0})
+			continue
+		}
 		if !strings.Contains(t, "=") && len(t) >= 2 && (t[0] == 'D' || t[0] == 'E') {
-			id, err := strconv.Atoi(t[1:])
+			kind, num := t[:1], t[1:]
+			if strings.HasSuffix(num, "!") { // fails the first time it is applied
+				kind, num = kind+"!", num[:len(num)-1]
+			}
+			id, err := strconv.Atoi(num)
 			if err != nil || id < 0 {
 				return nil, false
 			}
-			q.ops = append(q.ops, op{t[:1], id})
+			q.ops = append(q.ops, op{kind, id})
 			continue
 		}
 		kv := strings.SplitN(t, "=", 2)
@@ -638,8 +678,17 @@ func runCase(req string) (obs string) {
 			case <-time.After(settleTimeout):
 				return "timeout-running"
 			}
-		} else if err := router.RunHandlers(ctx); err != nil {
-			return "run-returned(" + wh.HexS(fmt.Sprint(err)) + ")"
+		} else {
+			// RunHandlers is idempotent by contract: when it reports an error (a decorator failed) it is called again
+			var err error
+			for attempt := 0; attempt < 16; attempt++ { // every failing decorator fails once
+				if err = router.RunHandlers(ctx); err == nil {
+					break
+				}
+			}
+			if err != nil {
+				return "run-returned(" + wh.HexS(fmt.Sprint(err)) + ")"
+			}
 		}
 		for _, hd := range handles {
 			select {
@@ -656,6 +705,24 @@ func runCase(req string) (obs string) {
 			router.AddPublisherDecorators(pubDecorator(o.n, r))
 		case "E":
 			router.AddSubscriberDecorators(subDecorator(o.n, r))
+		case "D!":
+			router.AddPublisherDecorators(failOncePub(pubDecorator(o.n, r)))
+		case "E!":
+			router.AddSubscriberDecorators(failOnceSub(subDecorator(o.n, r)))
+		case "K":
+			// application code with context values of its own under plain string keys, after the router's context decorator
+			router.AddSubscriberDecorators(message.MessageTransformSubscriberDecorator(func(m *message.Message) {
+				m.SetContext(appValues(m.Context(), "dec"))
+			}))
+			// (Router.AddMiddleware takes no lock: it must not overlap the start of handlers, so only before Run)
+			if !running {
+				router.AddMiddleware(func(next message.HandlerFunc) message.HandlerFunc {
+					return func(m *message.Message) ([]*message.Message, error) {
+						m.SetContext(appValues(m.Context(), "mw"))
+						return next(m)
+					}
+				})
+			}
 		case "RUN":
 			if e := runHandlers(); e != "" {
 				closeRouter()
@@ -914,6 +981,7 @@ func randomCase(rng *wh.Rng) string {
 	// to the running router, RunHandlers once or several times, more decorators in between
 	steps := rng.Intn(3) == 0
 	nextDec := 0
+	ranOnce := false
 	maybeStep := func() {
 		if !steps {
 			return
@@ -921,16 +989,24 @@ func randomCase(rng *wh.Rng) string {
 		switch rng.Intn(6) {
 		case 0:
 			nextDec++
-			toks = append(toks, "D"+strconv.Itoa(nextDec))
+			d := "D" + strconv.Itoa(nextDec)
+			if ranOnce && rng.Intn(3) == 0 {
+				d += "!" // fails the first time it is applied; only after Run (a failing Run cannot be retried)
+			}
+			toks = append(toks, d)
 		case 1:
 			nextDec++
 			toks = append(toks, "E"+strconv.Itoa(nextDec))
 		case 2:
 			toks = append(toks, "RUN")
+			ranOnce = true
 			if rng.Intn(3) == 0 {
 				toks = append(toks, "RUN") // idempotent by contract
 			}
 		}
+	}
+	if rng.Intn(5) == 0 {
+		toks = append(toks, "K") // application values under plain string keys with the router's key texts
 	}
 	if steps && rng.Intn(2) == 0 {
 		nextDec++
@@ -1193,6 +1269,34 @@ func appWrappedCases(emit func(string, string)) {
 	}
 }
 
+// a publisher decorator returns an error the first time it is applied to a handler added to the running router:
+// RunHandlers reports it, the caller calls RunHandlers again – afterwards the handler must be decorated like any other
+// (context values inside the function and on the outputs, every decorator exactly once).  And application code that
+// keeps values of its own in the message context under plain string keys with the router's key texts (token K).
+func failingDecoratorCases(emit func(string, string)) {
+	hx := wh.HexS
+	head := []string{"S1=" + hx("main.subA"), "S2=" + hx("main.subB"), "P1=" + hx("main.pubA"), "P2=" + hx("main.pubB")}
+	hA := fmt.Sprintf("h=%s:1:%s:p1:%s:0", hx("A"), hx("ta"), hx("oa"))
+	hB := fmt.Sprintf("h=%s:2:%s:p2:%s:1", hx("late"), hx("tb"), hx("ob"))
+	hC := fmt.Sprintf("h=%s:2:%s:np:-:1", hx("C"), hx("tb"))
+	ds := []string{
+		fmt.Sprintf("d=1:%s:1:f0.f1", hx("ta")), fmt.Sprintf("d=2:%s:2:c.f0", hx("tb")),
+		fmt.Sprintf("d=1:%s:3:-", hx("ta")), fmt.Sprintf("d=2:%s:4:f0", hx("tb"))}
+	progs := [][]string{
+		{hA, "RUN", "D1!", hB, "RUN"},
+		{"E1", hA, "RUN", "D2!", "E3", hB, hC, "RUN"},
+		{"D1", hA, "RUN", "D2", "D3!", "D4", hB, "RUN", "RUN"},
+		{"RUN", "D1!", "D2!", "E3", hA, hB, "RUN"},
+		{"K", "D1", "E2", hA, hB, hC},
+		{hA, "RUN", "K", "E1", hB, hC, "RUN"},
+		{"K", hA, "RUN", "D1!", "K", hB, "RUN"},
+	}
+	for _, pr := range progs {
+		toks := append(append(append([]string{}, head...), pr...), ds...)
+		emit("route "+strings.Join(toks, " "), "failing_decorator_and_app_context_values")
+	}
+}
+
 type job struct{ req, tag string }
 
 func main() {
@@ -1227,6 +1331,7 @@ func main() {
 	doneCases(emit)
 	stepCases(emit)
 	appWrappedCases(emit)
+	failingDecoratorCases(emit)
 	reqs := make([]string, len(jobs))
 	for i, j := range jobs {
 		reqs[i] = j.req
@@ -1266,8 +1371,13 @@ func main() {
 				out.Count("subscribers.application_wrapped")
 			case t == "RUN":
 				out.Count("ops.RunHandlers")
+			case t == "K":
+				out.Count("ops.app_values_under_string_keys")
 			case t[0] == 'D' && !strings.Contains(t, "="):
 				out.Count("ops.AddPublisherDecorators")
+				if strings.HasSuffix(t, "!") {
+					out.Count("ops.publisher_decorator_failing_once")
+				}
 			case t[0] == 'E' && !strings.Contains(t, "="):
 				out.Count("ops.AddSubscriberDecorators")
 			case strings.HasPrefix(t, "d="):
